@@ -14,26 +14,26 @@ import (
 )
 
 type Obligation struct {
-	Name     string // <pkg>.<Func>/<class>#n
-	Class    string
-	Props    []string
-	Goal     Term // must hold (under the background)
-	Desc     string
-	Pos      string
-	Expect   string // "unsat" for proof obligations, "sat" for COVER
-	FuncKey  string
-	Script   *Script
+	Name    string // <pkg>.<Func>/<class>#n
+	Class   string
+	Props   []string
+	Goal    Term // must hold (under the background)
+	Desc    string
+	Pos     string
+	Expect  string // "unsat" for proof obligations, "sat" for COVER
+	FuncKey string
+	Script  *Script
 	// results
-	Result   SolverResult
-	All      []SolverResult
-	Status   string // discharged | failed | cover-ok | cover-failed
-	QueryTxt string
+	Result               SolverResult
+	All                  []SolverResult
+	Status               string // discharged | failed | cover-ok | cover-failed
+	QueryTxt             string
 	cutDecls, cutAsserts int // background prefix visible to this obligation (-1: everything)
-	enc *Enc
-	sliced    bool
-	sliceDepth int
-	assumeIdx int // index in Script.Asserts of the fact assumed after this obligation (-1: none)
-	excluded  map[int]bool // for COVER: assertion indexes to leave out (facts assumed after obligations that failed)
+	enc                  *Enc
+	sliced               bool
+	sliceDepth           int
+	assumeIdx            int          // index in Script.Asserts of the fact assumed after this obligation (-1: none)
+	excluded             map[int]bool // for COVER: assertion indexes to leave out (facts assumed after obligations that failed)
 }
 
 type excEdge struct {
@@ -59,12 +59,12 @@ type loopInfo struct {
 // Enc is the per-function encoder.
 type Enc struct {
 	unmarshalled bool // a decoder havocked every heap: heaps first touched later are unconstrained too (they are anyway)
-	prog *Prog
-	fn   *ssa.Function
-	fc   *FuncContract
-	key  string
-	sc   *Script
-	tr   *TypeReg
+	prog         *Prog
+	fn           *ssa.Function
+	fc           *FuncContract
+	key          string
+	sc           *Script
+	tr           *TypeReg
 
 	stateCounter int
 	freshCounter int
@@ -102,10 +102,10 @@ type Enc struct {
 	rndSeen    map[string]bool
 	fnIDs      map[string]int
 
-	panicking Term // when verifying a `recovers` function: caller's panic flag
-	panicVal  Term
+	panicking     Term // when verifying a `recovers` function: caller's panic flag
+	panicVal      Term
 	recoveredFlag Term
-	inHandler bool
+	inHandler     bool
 
 	ordCache       map[ssa.Instruction]int
 	usedContracts  map[string]bool
